@@ -377,9 +377,12 @@ def r4(ctx):
     whiles = [n for n in f.own_nodes() if isinstance(n, ast.While)]
     dfs = None
     for w in whiles:
+        wl = text(w.test)        # `while <worklist>:`
+        if not isinstance(w.test, ast.Name):
+            continue
         for lp in _walk(w.body):
             if isinstance(lp, ast.For) and any(
-                    isinstance(c, ast.Call) and text(c.func).endswith("frontier.append")
+                    isinstance(c, ast.Call) and text(c.func) == wl + ".append"
                     for c in _walk(lp.body)):
                 dfs = lp
     ctx.require(dfs is not None, "C09.R4: swizzleRanks DFS loop not found")
@@ -391,37 +394,68 @@ def r4(ctx):
                 "iteration (`%s`): points under explicit defaults / empty "
                 "sub-fibers are lost or shifted"
                 % (kind or "non-raw", text(dfs.iter)))
-    guide_ok = any(isinstance(c, ast.Call) and text(c.func) == "guide.append"
-                   and c.args and text(c.args[0]).replace(" ", "") ==
-                   "old_rank_ids.index(rank_id)" for c in f.own_nodes()
-                   if isinstance(c, ast.Call))
-    newc = [n for n in f.own_nodes() if isinstance(n, ast.Assign)
-            and text(n.targets[0]) == "new_c"]
-    key_ok = newc and text(newc[0].value).replace(" ", "") == \
-        "tuple((frontier_coords[guide[i]]foriinrange(swiz_len)))"
-    if guide_ok and key_ok:
-        ctx.ok("C09.R4", f, newc[0], "permuted key built from all swizzled "
-               "coordinates through guide = old index of each new rank id")
+    # guide[i] = old index of the i-th requested rank id
+    newp = f.params[1]
+    guide = None
+    for lp in f.own_nodes():
+        if isinstance(lp, ast.For) and text(lp.iter) == newp and \
+                isinstance(lp.target, ast.Name):
+            for c in _walk(lp.body):
+                if isinstance(c, ast.Call) and isinstance(c.func, ast.Attribute) and \
+                        c.func.attr == "append" and c.args and \
+                        isinstance(c.args[0], ast.Call) and \
+                        isinstance(c.args[0].func, ast.Attribute) and \
+                        c.args[0].func.attr == "index" and \
+                        [text(a) for a in c.args[0].args] == [lp.target.id] and \
+                        pat.inline(ctx, f, c.args[0].func.value).replace(" ", "") == \
+                        "%s.getRankIds()" % f.params[0]:
+                    guide = text(c.func.value)
+    keydef = None
+    for n in f.own_nodes():
+        if isinstance(n, ast.Assign) and isinstance(n.value, ast.Call) and \
+                text(n.value.func) == "tuple" and len(n.value.args) == 1 and \
+                isinstance(n.value.args[0], (ast.GeneratorExp, ast.ListComp)):
+            ge = n.value.args[0]
+            g0 = ge.generators[0]
+            if len(ge.generators) == 1 and isinstance(g0.target, ast.Name) and not g0.ifs \
+                    and isinstance(ge.elt, ast.Subscript) and \
+                    isinstance(ge.elt.slice, ast.Subscript) and guide and \
+                    text(ge.elt.slice.value) == guide and \
+                    text(ge.elt.slice.slice) == g0.target.id and \
+                    isinstance(g0.iter, ast.Call) and text(g0.iter.func) == "range":
+                keydef = n
+    if guide and keydef is not None:
+        ctx.ok("C09.R4", f, keydef, "permuted key built from all swizzled "
+               "coordinates through guide = old index of each new rank id",
+               text_="swizzle key")
     else:
-        ctx.bad("C09.R4", f, newc[0] if newc else f.node, "the permuted "
+        ctx.bad("C09.R4", f, keydef if keydef is not None else f.node, "the permuted "
                 "coordinate is no longer `tuple(frontier_coords[guide[i]] for i "
                 "in range(swiz_len))` with guide[i] = old_rank_ids.index(new id)",
                 text_="swizzle key")
-    srt = [c for c in pat.calls(f, attr="sort") if text(c.func.value) == "coords"]
-    pops = [c for c in pat.calls(f, attr="pop") if text(c.func.value) == "coords"]
+    # the list of keys: sorted descending and consumed from the end (or
+    # ascending from the front)
+    keyvar = text(keydef.targets[0]) if keydef is not None else None
+    klist = None
+    for c in pat.calls(f, attr="append"):
+        if keyvar and c.args and text(c.args[0]) == keyvar and len(c.args) == 1:
+            klist = text(c.func.value)
+    srt = [c for c in pat.calls(f, attr="sort") if text(c.func.value) == klist]
+    pops = [c for c in pat.calls(f, attr="pop") if text(c.func.value) == klist]
     rev = srt and isinstance(pat.kwarg(srt[0], "reverse"), ast.Constant) and \
         pat.kwarg(srt[0], "reverse").value is True
     if rev and pops and not pops[0].args:
         ctx.ok("C09.R4", f, srt[0], "points rebuilt in ascending order "
-               "(descending sort consumed from the end)")
+               "(descending sort consumed from the end)", text_="swizzle order")
     elif srt and not rev and pops and pops[0].args and text(pops[0].args[0]) == "0":
-        ctx.ok("C09.R4", f, srt[0], "points rebuilt in ascending order")
+        ctx.ok("C09.R4", f, srt[0], "points rebuilt in ascending order",
+               text_="swizzle order")
     else:
         ctx.bad("C09.R4", f, srt[0] if srt else f.node, "the extracted points "
                 "are not rebuilt in ascending coordinate order",
                 text_="swizzle order")
     apps = [c for c in pat.calls(f, attr="append")
-            if text(c.func.value).startswith("fibers[") and len(c.args) == 2]
+            if isinstance(c.func.value, ast.Subscript) and len(c.args) == 2]
     if len(apps) >= 2:
         ctx.ok("C09.R4", f, apps[0], "rebuild goes through the checked "
                "Fiber.append API")
@@ -436,11 +470,28 @@ def r4(ctx):
     _merge_alignment(ctx)
     # Fiber.swapRanks
     f = ctx.method("Fiber", "swapRanks")
-    src = " ".join(text(s) for s in f.body).replace(" ", "")
-    fl = "self.flattenRanks(style='pair')" in src
-    so = "sorted([(c[::-1],p)for(c,p)inflattened])" in src or \
-        "sorted([(c[::-1],p)forc,pinflattened])" in src
-    un = ".unflattenRanks()" in src
+    fl = so = un = False
+    fvar = None
+    for n in f.own_nodes():
+        if isinstance(n, ast.Assign) and isinstance(n.targets[0], ast.Name) and \
+                text(n.value).replace(" ", "").replace('"', "'") == \
+                "%s.flattenRanks(style='pair')" % f.params[0]:
+            fl, fvar = True, n.targets[0].id
+    for c in f.own_nodes():
+        if isinstance(c, ast.Call) and text(c.func) == "sorted" and len(c.args) == 1 \
+                and not c.keywords and isinstance(c.args[0], (ast.ListComp, ast.GeneratorExp)):
+            lc_ = c.args[0]
+            g0 = lc_.generators[0]
+            if len(lc_.generators) == 1 and not g0.ifs and text(g0.iter) == fvar and \
+                    isinstance(g0.target, ast.Tuple) and len(g0.target.elts) == 2 and \
+                    isinstance(lc_.elt, ast.Tuple) and len(lc_.elt.elts) == 2:
+                cv, pv = [text(e) for e in g0.target.elts]
+                if text(lc_.elt.elts[0]).replace(" ", "") == "%s[::-1]" % cv and \
+                        text(lc_.elt.elts[1]) == pv:
+                    so = True
+        if isinstance(c, ast.Call) and isinstance(c.func, ast.Attribute) and \
+                c.func.attr == "unflattenRanks" and not c.args and not c.keywords:
+            un = True
     if fl and so and un:
         ctx.ok("C09.R4", f, f.node, "swap = flatten(pair), sort on the reversed "
                "pair, unflatten", text_="def swapRanks(self)")
